@@ -76,9 +76,9 @@ def run(tier, seed):
     trbase = vlib.vecpath(PROP, "tr").replace(".ndjson", "")
     rr = vlib.run_harness(ck.binary, PROP, vec, seed=seed, tier=tier, shards=4, timeout=3000,
                           env_extra={"VERIF_TRACE_OUT": trbase, "VERIF_TRACE_PCT": "30" if thorough else "12"})
-    os.unlink(vec)
     ck.absorb(rr)
-    ck.triage(rr.divs)
+    ck.triage(rr.divs, rerun=rr.again)
+    os.unlink(vec)
     files = sorted(glob.glob(trbase + ".*.ndjson"))
     try:
         bad = validate_traces(ck, files, "all")
